@@ -67,15 +67,15 @@ var (
 	ProfC04 = &Profile{
 		Methods:  cat(rep(MExecute, 3), []int{MSelected}, rep(MSelectedCtl, 2)),
 		MinRules: 1, MaxRules: 8, SalSpan: 3,
-		Secs:    map[int]int{SecY: 2, SecCall: 3, SecAsgCall: 2},
-		MaxSecs: 3, Rets: []int{RetNone, RetNone, RetNestedV},
+		Secs:    map[int]int{SecY: 2, SecCall: 3, SecAsgCall: 2, SecDiv: 1, SecIfKind: 1, SecNil: 1, SecConc: 1},
+		MaxSecs: 3, Rets: []int{RetNone, RetNone, RetNone, RetNestedV, RetNestedV, RetTopKind, RetKind},
 		FaultPct: 60, GatePct: 10, RetPct: 50, MinCalls: 6, MaxCalls: 20, UnknownNamePct: 30, EvolvePct: 40,
 	}
 	ProfC05 = &Profile{
 		Methods:  stagedMethods,
 		MinRules: 1, MaxRules: 8, SalSpan: 2,
-		Secs:    map[int]int{SecY: 5, SecCall: 2, SecAsgCall: 1},
-		MaxSecs: 4, Rets: []int{RetNone, RetNone, RetNestedV},
+		Secs:    map[int]int{SecY: 5, SecCall: 2, SecAsgCall: 1, SecDiv: 1, SecIfKind: 1, SecNil: 1, SecConc: 1},
+		MaxSecs: 4, Rets: []int{RetNone, RetNone, RetNone, RetNestedV, RetNestedV, RetTopKind, RetKind},
 		FaultPct: 50, GatePct: 55, RetPct: 50, MinCalls: 6, MaxCalls: 20, UnknownNamePct: 8, BadNMPct: 5, EvolvePct: 25,
 	}
 	ProfC09 = &Profile{
@@ -96,22 +96,22 @@ var (
 	ProfC12 = &Profile{
 		Methods:  selectedMethods,
 		MinRules: 1, MaxRules: 7, SalSpan: 2,
-		Secs:    map[int]int{SecY: 3, SecCall: 2},
-		MaxSecs: 3, Rets: []int{RetNone, RetNone, RetNestedV},
+		Secs:    map[int]int{SecY: 3, SecCall: 2, SecDiv: 1, SecIfKind: 1},
+		MaxSecs: 3, Rets: []int{RetNone, RetNone, RetNone, RetNestedV, RetNestedV, RetTopKind, RetKind},
 		FaultPct: 40, GatePct: 25, RetPct: 50, StopPct: 0, MinCalls: 6, MaxCalls: 20, UnknownNamePct: 45, BadNMPct: 30, EvolvePct: 25,
 	}
 	ProfC13 = &Profile{
 		Methods:  []int{MDAG},
 		MinRules: 1, MaxRules: 6, SalSpan: 2,
-		Secs:    map[int]int{SecY: 4, SecCall: 2},
-		MaxSecs: 3, Rets: []int{RetNone, RetNone, RetNestedV, RetTop},
+		Secs:    map[int]int{SecY: 4, SecCall: 2, SecDiv: 1, SecIfKind: 1, SecNil: 1},
+		MaxSecs: 3, Rets: []int{RetNone, RetNone, RetNestedV, RetTop, RetTopKind, RetKind},
 		FaultPct: 50, GatePct: 55, RetPct: 50, MinCalls: 4, MaxCalls: 14, UnknownNamePct: 40, EvolvePct: 20,
 	}
 	ProfC14 = &Profile{
 		Methods:  []int{MExecuteStopTag, MExecuteStopTag, MMixStopTag, MMixStopTag, MSelectedCtlStop, MSelectedCtlStopGiven},
 		MinRules: 1, MaxRules: 7, SalSpan: 2,
-		Secs:    map[int]int{SecY: 2, SecCall: 2, SecStop: 4},
-		MaxSecs: 3, Rets: []int{RetNone, RetNone, RetNestedV},
+		Secs:    map[int]int{SecY: 2, SecCall: 2, SecStop: 4, SecDiv: 1, SecIfKind: 1},
+		MaxSecs: 3, Rets: []int{RetNone, RetNone, RetNone, RetNestedV, RetNestedV, RetTopKind, RetKind},
 		FaultPct: 45, GatePct: 20, RetPct: 50, StopPct: 30, MinCalls: 6, MaxCalls: 20, UnknownNamePct: 20, EvolvePct: 15, TwinUntagged: true,
 	}
 	ProfC15 = &Profile{
